@@ -318,7 +318,7 @@ func TestVerif_C19(t *testing.T) {
 		if len(res.Samples) < 5 && i%7 == 0 {
 			res.sample(desc)
 		}
-		if res.nViol() > 300 {
+		if res.giveUp(300) {
 			break
 		}
 	}
